@@ -371,6 +371,25 @@ def property_failures(sc, out, var, strs, limit):
         if not any(named(fs["tag"]) == missing(f) and ((fs["tag"] == "") == (f == ALL)) for f in set(flags_before)):
             fails.append({"why": "status.tag holds %r which names %s; the flags were only ever %s" % (fs["tag"], sorted(named(fs["tag"])), sorted(set(flags_before))),
                           "kind": "tag"})
+    # (5) status.tag follows the outcome: when the last thing that happened to the provision is a readiness
+    #     report that completed ALL_READY (its future ran to the end, no reset after it, no deadline handler
+    #     still running at that point), a status.tag that still carries a failure text contradicts what
+    #     /provision now answers (finished, empty error text)
+    all_ready_steps = [j for j, k in enumerate(kinds) if k and k[0] == "report" and k[2] == 1 and steps[j]["flags"] == ALL]
+    if all_ready_steps and fs["tag"]:
+        a = max(all_ready_steps)
+        last_step = {}
+        for j, k in enumerate(kinds):
+            if k and k[0] != "qcreate":
+                last_step[k[1]] = j
+        resets_after = [j for j, k in enumerate(kinds) if k and k[0] == "reset" and j > a]
+        writers = {kinds[j][1] for j in all_ready_steps} | {t for t, tk_ in enumerate(sc["tasks"]) if tk_["op"] == "timeup"}
+        # another writer still on its way at that point may publish its older text afterwards
+        timeups_late = [t for t in writers if t != kinds[a][1] and last_step.get(t, -1) > a]
+        if not resets_after and not timeups_late and out["done"][kinds[a][1]] and steps[-1]["flags"] == ALL:
+            fails.append({"why": "status.tag still holds the failure text %r although task %d's readiness report completed ALL_READY afterwards (step %d), ran to its end, and nothing reset a flag since: the file names %s while /provision answers finished with an empty error text" % (
+                              fs["tag"], kinds[a][1], a, sorted(named(fs["tag"]))),
+                          "kind": "tag-stale"})
     return fails, stale
 
 
@@ -449,8 +468,14 @@ def gen_cases(ctx):
             fams["Q"] += list(family(others, [rep(x), qry("now")], [1, 8], setup))
         fams["Q"] += list(family(others, [rep(x), dict(RESET), qry("now")], [1, 1, 8], setups[1]))
         fams["Q"] += list(family(others, [rep(x), dict(TIMEUP), qry("now")], [1, 2, 6], setups[2])) if not quick else []
+    # S: the whole life of the last reporter (6 polls) against one reset and the CREATION of a query that is
+    #     answered only after everything else completed: any late / second stamp of the tick is exposed
+    fams["S"] = []
+    for x in "RKL":
+        others = [rep(f) for f in "RKL" if f != x]
+        fams["S"] += list(family(others, [rep(x), dict(RESET), qry("now")], [6, 1, 1], setups[1]))
     cases, dist = [], {}
-    take = {"A": None, "B": 300, "C": 300, "D": 200, "E": 0, "Q": None} if quick else {"A": None, "B": None, "C": None, "D": 3000, "E": 3000, "Q": None}
+    take = {"A": None, "B": 300, "C": 300, "D": 200, "E": 0, "Q": None, "S": None} if quick else {"A": None, "B": None, "C": None, "D": 3000, "E": 3000, "Q": None, "S": None}
     for name, lst in fams.items():
         k = take[name]
         sel = lst if k is None or k >= len(lst) else rng.sample(lst, k)
@@ -481,6 +506,10 @@ def gen_cases(ctx):
             pool += [i] * rng.randint(1, {"report": 4, "reset": 3, "timeup": 4, "query": 6, "setchan": 3, "setmsg": 2}[t["op"]])
         rng.shuffle(pool)
         cases.append({"kind": "sched", "setup": setup, "tasks": tasks, "sched": complete(pool, len(tasks))})
+    for order in itertools.permutations("RKL"):
+        tasks = [rep(order[0]), rep(order[1]), dict(TIMEUP), rep(order[2]), qry("now"), rep("K"), qry("tick")]
+        cases.append({"kind": "sched", "setup": setups[1], "tasks": tasks, "sched": [t for t in range(len(tasks)) for _ in range(MAXP)]})
+    dist["deadline_then_success_sequential"] = 6
     dist["random_general"] = nrand
     return cases, dist
 
@@ -513,6 +542,9 @@ def gen_http(ctx):
                    {"op": "setchan", "v": "WireServer Enforce -  IMDS Audit"}, {"op": "httpquery", "q": "now"},
                    {"op": "setchan", "v": "disabled"}, {"op": "httpquery", "q": "now"}, dict(RESET),
                    {"op": "httpquery", "q": "raw:-5"}, dict(TIMEUP), {"op": "httpquery", "q": "tick"}, {"op": "httpquery", "q": "tick+1"}]
+        if i == 1:   # a slow provision: the deadline writes the failure text, the subsystems become ready afterwards
+            ops = [dict(TIMEUP), {"op": "httpquery", "q": "now"}, rep("R"), rep("K"), {"op": "httpquery", "q": "now"},
+                   {"op": "httpquery", "q": "tick"}, rep("K"), {"op": "httpquery", "q": "tick"}]
         scs.append({"kind": "http", "setup": {"evt": True, "chan": rng.choice(["Unknown", "disabled"])}, "ops": ops})
     return scs
 
@@ -711,6 +743,18 @@ def run(ctx):
             continue
         cmh = canon_model(msc, mo, var)[0] if with_model else None
         msgs = {m: sc["setup"].get("msgs", {}).get(m, UNKNOWN_MSG) for m in "RKL"}
+        last_outcome = None
+        if out.get("fs", {}).get("tag") and sc["ops"] and len(out["steps"]) == len(sc["ops"]):
+            lo = None
+            for i, (o, s) in enumerate(zip(sc["ops"], out["steps"])):
+                if o["op"] == "report" and s["flags"] == ALL:
+                    lo = ("all-ready", i)
+                elif o["op"] == "reset" or (o["op"] == "timeup" and s["flags"] != ALL):
+                    lo = (o["op"], i)
+            if lo and lo[0] == "all-ready":
+                failures.append({"case": sc, "kind": "tag-stale", "impl": out["fs"],
+                                 "why": "status.tag still holds the failure text %r although op %d (a readiness report) completed ALL_READY afterwards and nothing reset a flag since: the file names %s while /provision answers finished with an empty error text" % (
+                                     out["fs"]["tag"], lo[1], sorted(named(out["fs"]["tag"])))})
         for i, (o, s) in enumerate(zip(sc["ops"], out["steps"])):
             mi = i + 1                               # model task index (task 0 = the listener's own report)
             mfl = cmh["steps"][(mi + 1) * MAXP - 1][0] if cmh else s["flags"]   # flags after that op completed
@@ -719,6 +763,10 @@ def run(ctx):
                 break
             if o["op"] == "setmsg":
                 msgs[o["m"]] = o["v"]
+            if o["op"] == "report" and s["flags"] == ALL:
+                last_outcome = ("all-ready", i)
+            elif o["op"] == "reset" or (o["op"] == "timeup" and s["flags"] != ALL):
+                last_outcome = (o["op"], i)
             if o["op"] != "httpquery":
                 continue
             n_http_q += 1
@@ -880,12 +928,24 @@ def run(ctx):
 
 # ------------------------------------------------------------------------------------------------
 def strace_leg(ctx, binary, cdir, strs, limit, var, disagreements, failures, with_model=True):
-    info = {"runs": 0}
+    """once over an existing status.tag and once for the FIRST status.tag of a directory (no old file:
+    every crash / fault must leave it absent or complete)"""
     if shutil.which("strace") is None:
-        info["skipped"] = "strace not installed"
-        return info
+        return {"runs": 0, "skipped": "strace not installed"}
+    info = _strace_round(ctx, binary, cdir, var, disagreements, failures, with_model, "OLD CONTENT\r\n")
+    first = _strace_round(ctx, binary, cdir, var, disagreements, failures, with_model, None)
+    info["runs"] += first["runs"]
+    info["first_status_tag"] = first
+    return info
+
+
+MUTATING = ("open", "openat", "openat2", "creat", "write", "pwrite64", "writev", "close", "rename", "renameat", "renameat2",
+            "unlink", "unlinkat", "truncate", "ftruncate", "link", "linkat", "symlink", "symlinkat")
+
+
+def _strace_round(ctx, binary, cdir, var, disagreements, failures, with_model, old):
+    info = {"runs": 0}
     kd = os.path.join(cdir, "kill")
-    old = "OLD CONTENT\r\n"
     msg = "new <message> & more"
     new = None    # learned from the complete run below
     tag, tmp = os.path.join(kd, "status.tag"), os.path.join(kd, "status.tag.tmp")
@@ -894,8 +954,9 @@ def strace_leg(ctx, binary, cdir, strs, limit, var, disagreements, failures, wit
     def fresh():
         shutil.rmtree(kd, ignore_errors=True)
         os.makedirs(kd)
-        with open(tag, "w", newline="") as f:
-            f.write(old)
+        if old is not None:
+            with open(tag, "w", newline="") as f:
+                f.write(old)
 
     def rd(p):
         try:
@@ -911,7 +972,8 @@ def strace_leg(ctx, binary, cdir, strs, limit, var, disagreements, failures, wit
     calls = []
     for l in open(log, errors="replace"):
         m = re.match(r"\d+\s+(\w+)\((.*)", l)
-        if m and m.group(1) not in ("exit_group",):
+        # only what changes the files matters (stat / access / fsync around it are harmless)
+        if m and m.group(1) in MUTATING:
             calls.append((m.group(1), m.group(2)))
     names = [c[0] for c in calls]
     info["syscalls"] = names
@@ -937,8 +999,8 @@ def strace_leg(ctx, binary, cdir, strs, limit, var, disagreements, failures, wit
         pref = [(old, None), (old, ""), (old, new), (new, None)]
     n = len(new.encode())
     pref = pref if not with_model else vplib.coq_eval(ctx, "From Coq Require Import List NArith ZArith.\nImport ListNotations.\nFrom GPA Require Import Provision.",
-                          ["map (fun n => let c := prun %s (start %s (init_world true (set_msg default_msgs MKeyKeeper %s) %s (Some %s)) [OpTimeup]) (repeat 0%%nat n) in (tag_content (shared c), tmp_content (shared c))) [10%%nat; 11%%nat; %d%%nat; %d%%nat]"
-                           % (coq_variant(var), coq_variant(var), cb(msg), cb("Unknown"), cb(old), 11 + n, 12 + n)], name="crash")[0]
+                          ["map (fun n => let c := prun %s (start %s (init_world true (set_msg default_msgs MKeyKeeper %s) %s (TAG0 %s)) [OpTimeup]) (repeat 0%%nat n) in (tag_content (shared c), tmp_content (shared c))) [10%%nat; 11%%nat; %d%%nat; %d%%nat]"
+                           % (coq_variant(var), coq_variant(var), cb(msg), cb("Unknown"), cb(old) if old is not None else "[]", 11 + n, 12 + n)], name="crash", prelude="Definition TAG0 (b : bytes) : option bytes := %s." % ("Some b" if old is not None else "None"))[0]
     if with_model:
         pref = [(b2s(a), b2s(b)) for a, b in pref]
     expect = {"openat": pref[0], "write": pref[1], "close": pref[2], "rename": pref[2]}
@@ -955,7 +1017,9 @@ def strace_leg(ctx, binary, cdir, strs, limit, var, disagreements, failures, wit
         seen[sysc] = {"rc": rc, "tag": got[0], "tmp": got[1]}
         if got[0] not in (old, new):
             failures.append({"case": dict(sc, kill_before=sysc), "kind": "tag", "impl": got,
-                             "why": "killed before %s: status.tag holds %r, neither the old nor the new content" % (sysc, got[0])})
+                             "why": "killed before %s (%s): status.tag holds %r, neither %s nor the new content" % (
+                                 sysc, "over an existing status.tag" if old is not None else "first status.tag of the directory", got[0],
+                                 "the old" if old is not None else "absent")})
         elif rc == 0 and len(outs) == 1:
             # the syscall never happened (e.g. rename replaced by something else): shape already reported above
             pass
@@ -966,7 +1030,7 @@ def strace_leg(ctx, binary, cdir, strs, limit, var, disagreements, failures, wit
     #     like to write(2)), or the directory is read-only for the process: status.tag must still hold a complete
     #     old or new text (a failed temp write must never be renamed into place)
     faults = {}
-    for name, extra, prep in ([("fsize=%d" % n, {"fsize": n}, None) for n in (0, 1, 40, max(1, len(new.encode()) - 1))] +
+    for name, extra, prep in ([("fsize=%d" % n, {"fsize": n}, None) for n in (0, 1, 20, 40, max(1, len(new.encode()) - 1))] +
                               [("read-only directory with a stale status.tag.tmp", {"drop_uid": 65534}, "stale")]):
         fresh()
         if prep == "stale":
@@ -979,6 +1043,8 @@ def strace_leg(ctx, binary, cdir, strs, limit, var, disagreements, failures, wit
         faults[name] = {"rc": rc, "tag": got[0], "tmp_len": None if got[1] is None else len(got[1])}
         if got[0] not in (old, new):
             failures.append({"case": dict(sc, **extra), "kind": "tag", "impl": got,
-                             "why": "write_provision_state under the fault '%s': status.tag holds %r, neither the complete old nor the complete new text (a failed write of status.tag.tmp was published)" % (name, got[0])})
+                             "why": "write_provision_state under the fault '%s' (%s): status.tag holds %r, neither %s nor the complete new text (a failed / partial write was published)" % (
+                                 name, "over an existing status.tag" if old is not None else "first status.tag of the directory", got[0],
+                                 "the complete old text" if old is not None else "absent")})
     info["faults"] = faults
     return info
